@@ -151,6 +151,24 @@ def _wrap_act_on_expression(orig):
                             OBS.triggers.add("null_cmp")
             except Exception:
                 pass
+        if name in ("<", "<=", ">", ">=", "==", "!=") and len(values) == 2:
+            # a comparison whose float operands are (nearly) tied is decided by the last bit of the math library in use:
+            # engines legitimately differ there (tanh(19) is 1.0 in numpy and 0.99999999999999989 in SQLite's libm)
+            try:
+                import numpy
+
+                a, c = values
+                fa = getattr(a, "dtype", None) is not None and a.dtype.kind == "f" or isinstance(a, float)
+                fc = getattr(c, "dtype", None) is not None and c.dtype.kind == "f" or isinstance(c, float)
+                if (fa or fc) and not isinstance(a, str) and not isinstance(c, str):
+                    aa = numpy.asarray(a, dtype="float64")
+                    cc = numpy.asarray(c, dtype="float64")
+                    with numpy.errstate(all="ignore"):
+                        close = numpy.isclose(aa, cc, rtol=1e-9, atol=1e-12)
+                    if bool(numpy.any(close)):
+                        OBS.triggers.add("float_tie_cmp")
+            except Exception:
+                pass
         return orig(self, arg=arg, values=values, op=op)
 
     return wrapper
